@@ -22,7 +22,21 @@ def run(tier):
     import checks.c04 as c04
     run.add_cases("c01_shaped", c04.shaped_cases(tier, "c01s"))
     run.classify_all()
-    return run.V.finish("model_checking", run.coverage(RULE), X.TRUSTED)
+    # stanzas in file order, matches in cursor order (strict mode): the `match` events against raw tree-sitter
+    import checks.c03 as c03
+    order_checked = 0
+    for case, res, cl in run.classified:
+        o = case.get("outcome")
+        if not o or case.get("mode") != "strict" or o["status"] != "ok" or o.get("truncated") or "matches" not in case:
+            continue
+        want = [(loc[0], loc[1], root) for (_, loc, root, _) in c03.expected_matches(case)]
+        got = [(e["row"], e["col"], e["root"]) for e in case["events"] if e.get("e") == "match"]
+        order_checked += 1
+        if got != want:
+            payload = X.replay_payload(PROP, case, res, cl)
+            payload["detail"] = "blocks did not run once per match, stanzas in file order and matches in cursor order: ran %s, expected %s" % (got[:10], want[:10])
+            run.V.violation(case["id"] + "-order", payload, {"observed": "block-order"})
+    return run.V.finish("model_checking", run.coverage(RULE, {"block_order_checked": order_checked}), X.TRUSTED)
 
 
 def replay(path):
